@@ -155,7 +155,7 @@ type result struct {
 // readAll drains a reader built over cr; the harness owns the bufio.Reader so it can measure
 // what each call consumed. It stops at the first error that is not a frame.ReadError and returns it.
 func readAll(cr *chunkReader, drw *dialect.ReadWriter, key *frame.V2Key, maxCalls int) ([]result, error, error) {
-	br := bufio.NewReaderSize(cr, 512)
+	br := bufio.NewReaderSize(cr, readBufSize)
 	rd := &frame.Reader{BufByteReader: br, DialectRW: drw, InKey: key}
 	if err := rd.Initialize(); err != nil {
 		return nil, nil, fmt.Errorf("BROKEN: reader init: %v", err)
@@ -218,3 +218,11 @@ func rawOf(fr frame.Frame) *message.MessageRaw {
 }
 
 var _ = bytes.Equal
+
+// readBufSize is the size of the caller-supplied bufio.Reader handed to frame.Reader (the public
+// BufByteReader field); any size bufio accepts is a legal configuration. drawBufSize picks one per case.
+var readBufSize = 512
+
+func drawBufSize(t *rapid.T) {
+	readBufSize = rapid.SampledFrom([]int{512, 512, 512, 16, 17, 24, 32, 64, 100, 256, 280, 300, 4096}).Draw(t, "bufio_size")
+}
